@@ -105,6 +105,7 @@ type Run struct {
 	concretePicks []int
 	cpPos       int
 	engineOnly  bool
+	sess        *Session
 }
 
 func (r *Run) addPC(c *Term) {
@@ -143,35 +144,30 @@ func (r *Run) solve(extra ...*Term) (string, *Model) {
 		}
 		return "sat", r.concrete
 	}
-	script, leaves, ref := r.ctx.Script(roots)
-	var exprs []string
-	for _, l := range leaves {
-		if l.op == OpVar {
-			exprs = append(exprs, l.name)
-		} else {
-			exprs = append(exprs, ref(l), ref(l.a[0]))
+	if r.sess == nil {
+		r.sess = r.solver.openSession()
+	}
+	var xs []*Term
+	for _, e := range extra {
+		if !e.IsTrue() {
+			xs = append(xs, e)
 		}
 	}
-	if len(exprs) == 0 {
-		exprs = nil
-	}
-	sr := r.solver.Solve(script, exprs)
+	sr, leaves, ref := r.sess.solve(r.ctx, r.pc, xs, true)
 	if r.eng.dumpQueries != "" {
+		script, _, _ := r.ctx.Script(roots)
 		r.eng.dumpQuery(script, sr.Status)
 	}
 	if sr.Status != "sat" {
 		return sr.Status, nil
 	}
 	m := NewModel()
-	i := 0
 	for _, l := range leaves {
 		if l.op == OpVar {
-			m.Vars[l.name] = sr.Values[exprs[i]]
-			i++
+			m.Vars[l.name] = sr.Values[l.name]
 		} else {
-			v := sr.Values[exprs[i]]
-			idx := sr.Values[exprs[i+1]]
-			i += 2
+			v := sr.Values[ref(l)]
+			idx := sr.Values[ref(l.a[0])]
 			a := m.Arrays[l.name]
 			if a == nil {
 				a = map[uint64]uint64{}
@@ -395,6 +391,11 @@ func (r *Run) check(id, kind string, cond *Term, msg string, knownID string, kno
 		r.res.Trivial++
 		return
 	}
+	if r.pos < len(r.prefix) {
+		// decided by the run that produced this prefix
+		r.addPC(cond)
+		return
+	}
 	r.res.Obligations++
 	c := r.ctx
 	nc := c.Not(cond)
@@ -506,7 +507,7 @@ func (r *Run) assume(c *Term, what string) {
 		r.res.Outcome = "infeasible"
 		r.abort("assumption false")
 	}
-	if mv, ok := r.modelEval(c); ok && mv {
+	if mv, ok := r.modelEval(c); (ok && mv) || r.pos < len(r.prefix) {
 		r.addPC(c)
 		return
 	}
@@ -524,7 +525,7 @@ func (r *Run) assume(c *Term, what string) {
 }
 
 func (r *Run) cover(id string, cond *Term) {
-	if _, done := r.res.Covers[id]; done {
+	if _, done := r.res.Covers[id]; done || r.pos < len(r.prefix) {
 		return
 	}
 	var m *Model
